@@ -207,7 +207,8 @@ def same_relation_rule(crate, prop, rule="C03.R4"):
     r.inst(edge="dependencies::Visit::visit -> Dependency::from_ty::<T>", present=ok)
     if not ok:
         r.fail(prop, "edge-missing Visit::visit -> Dependency::from_ty", "the dependency visitor does not record Dependency::from_ty::<T>()")
-    er = crate.body("export::recursive_export::export_recursive")
+    from rules.export_rules import walker_roles
+    er = walker_roles(crate)[0]
     ok = er is not None and any(fn_matches(t, r"TS::visit_dependencies$") for _, t in er.calls())
     r.inst(edge="export_recursive -> <T as TS>::visit_dependencies", present=ok)
     if not ok:
